@@ -353,6 +353,17 @@ func c19Enumerated(c *Case) {
 		{"wildcard", S("anything"), []*MatchCase{with(ex(S("wild")), V("_"))}},
 		{"binding used in body", Arr(N("3"), Arr(N("4"), S("s"))), []*MatchCase{with(ex(Arr(y, x, V("z"))), Arr(x, Arr(y, V("z"))))}},
 	}
+	// a match directly inside the body of another match's case: each case has its own bindings
+	rest := V("rest")
+	inner := func(subj Expr, body Expr, pats ...Expr) Expr { return &MatchExpr{Subj: subj, Cases: []*MatchCase{with(ex(body), pats...)}} }
+	forms = append(forms,
+		form{"nested match binding the same name: outer value afterwards", Arr(N("1"), Arr(N("2"), N("3"))), []*MatchCase{with(ex(Bin("+", &Paren{X: inner(rest, Bin("+", Bin("*", x, N("10")), y), Arr(x, y))}, x)), Arr(x, rest))}},
+		form{"nested match binding the same name: outer value before and after", Arr(N("1"), Arr(N("2"), N("3"))), []*MatchCase{with(ex(Arr(x, inner(rest, Arr(x, y), Arr(x, y)), x)), Arr(x, rest))}},
+		form{"nested match: inner-only names are gone afterwards", Arr(N("1"), N("2")), []*MatchCase{with(ex(Arr(inner(y, V("q"), V("q")), &IsExpr{X: V("q"), T: "unknown"}, x)), Arr(x, y))}},
+		form{"three levels binding one name", Arr(N("1"), Arr(N("2"), Arr(N("3"), N("4")))), []*MatchCase{with(ex(Arr(x, inner(rest, Arr(x, inner(rest, x, Arr(x, V("w"))), x), Arr(x, rest)), x)), Arr(x, rest))}},
+		form{"nested match in a block body", Arr(N("1"), Arr(N("2"), N("3"))), []*MatchCase{{Pats: []Expr{Arr(x, rest)}, Block: Blk(Pr(S("outer"), x), ES(&MatchExpr{Subj: rest, Cases: []*MatchCase{{Pats: []Expr{Arr(x, y)}, Block: Blk(Pr(S("inner"), x, y))}}}), Pr(S("outer again"), x, &IsExpr{X: y, T: "unknown"}))}}},
+		form{"nested match as the subject of the outer body's match", Arr(N("5"), N("6")), []*MatchCase{with(ex(inner(inner(x, Bin("+", x, N("1")), x), Arr(x, y), x)), Arr(x, y))}},
+	)
 	for _, f := range forms {
 		p := &Program{Items: []any{&Rule{Kind: "BEGIN", Body: Blk(Pr(S("value"), jsonOf(&MatchExpr{Subj: f.subj, Cases: f.cs})), Pr(S("after")))}}}
 		c.NonTrivial("form:" + f.name)
